@@ -875,6 +875,7 @@ def engine_ct(prop, tier, seed, spec):
     wdir = os.path.join(WORK, prop, "shards")
     shutil.rmtree(wdir, ignore_errors=True)
     os.makedirs(wdir, exist_ok=True)
+    os.environ["VERIF_CT_TMP"] = os.path.join(WORK, prop, "tmp")
     bins = {}
     for cfg in spec["configs"][tier]:
         try:
@@ -884,7 +885,7 @@ def engine_ct(prop, tier, seed, spec):
             agg.inconclusive.append("%s: build failed" % cfg)
     jobs = []
     plan = {}
-    pyenv = goenv()
+    pyenv = goenv({"VERIF_CT_TMP": os.environ["VERIF_CT_TMP"]})
     for cfg, binp in bins.items():
         slow = CONFIGS[cfg]["env"].get("GOARCH") == "386"
         for op, pairs, pub in ct_cases(seed, thorough, slow):
